@@ -9,6 +9,7 @@ import (
 	"bytes"
 	"errors"
 	"fmt"
+	"git.metabarcoding.org/obitools/obitools4/obitools4/pkg/obiverif"
 	"io"
 	"os"
 	"path/filepath"
@@ -60,6 +61,7 @@ func targets(codec string) []target {
 		{"obiconvert:file", "obiconvert", nil, false, ""},
 		{"obicount:file", "obicount", nil, false, ""},
 		{"obigrep:file", "obigrep", []string{"-l", "1"}, false, ""},
+		{"obiconvert:file-forced-format", "obiconvert", []string{"--FORMAT"}, false, ""},
 		{"obiconvert:two-files", "obiconvert", nil, false, "two-files"},
 		{"obiconvert:two-files-forced-format", "obiconvert", []string{"--FORMAT"}, false, "two-files"},
 	}
@@ -233,6 +235,77 @@ func checkTrunc(c *core.Ctx, codec, class string, t target, path string, k, tota
 	}
 }
 
+// runTruncateBig: inputs larger than every internal read-ahead (the format sniffer reads the first
+// MiB, the chunk reader works with 1 MiB buffers): faults located after the first and the second
+// decompressed MiB.
+func runTruncateBig(c *core.Ctx) {
+	codec := gen.Codecs[c.Idx%len(gen.Codecs)]
+	fastq := (c.Idx/len(gen.Codecs))%2 == 1
+	n := 26000 + c.Rng.Intn(6000)
+	if fastq {
+		n = 15000 + c.Rng.Intn(3000)
+	}
+	text := seqText(c.Rng, n, fastq)
+	comp, err := gen.Compress(codec, text)
+	if err != nil {
+		c.Inconclusive("cannot compress: " + err.Error())
+		return
+	}
+	ext := ".fasta"
+	if fastq {
+		ext = ".fastq"
+	}
+	base := filepath.Join(c.Dir, fmt.Sprintf("big%d%s%s", c.Idx, ext, gen.CodecExt(codec)))
+	defer os.Remove(base)
+	tg := targets(codec)[:4] // single-file targets
+	if codec == "gzip" {
+		tg = append(tg, target{"obiconvert:stdin", "obiconvert", nil, true, ""})
+	}
+	os.WriteFile(base, comp, 0o644)
+	for _, t := range tg {
+		if intact := runCmd(c, t, base); intact.Exit != 0 {
+			c.Violate("intact-rejected:"+t.name, "the intact compressed file is rejected", map[string]any{"codec": codec, "records": n, "stderr": cmdx.Tail(intact.Stderr, 800)})
+			return
+		}
+	}
+	c.Sample(map[string]any{"codec": codec, "format": ext, "records": n, "decompressed_bytes": len(text), "compressed_bytes": len(comp), "faults": "truncation at sampled byte offsets over the whole file and in its last 12 bytes; single bit flips"})
+	var cuts []int
+	for i := 0; i < c.Pick(6, 24); i++ {
+		cuts = append(cuts, 6+c.Rng.Intn(len(comp)-6))
+	}
+	for i := 0; i < c.Pick(3, 12); i++ {
+		cuts = append(cuts, len(comp)-1-c.Rng.Intn(12))
+	}
+	for i, k := range cuts {
+		os.WriteFile(base, comp[:k], 0o644)
+		checkTrunc(c, codec, "big", tg[(i+c.Idx)%len(tg)], base, k, len(comp), n)
+	}
+	for i := 0; i < c.Pick(4, 16); i++ {
+		b := c.Rng.Intn(len(comp) * 8)
+		mut := append([]byte{}, comp...)
+		mut[b/8] ^= 1 << uint(b%8)
+		libErr := gen.DecodeError(codec, mut)
+		if libErr == nil {
+			continue // not a corruption the decoder can see: nothing to demand without the intact output at hand
+		}
+		os.WriteFile(base, mut, 0o644)
+		t := tg[(i+c.Idx)%len(tg)]
+		res := runCmd(c, t, base)
+		c.Count("evaluations", 1)
+		c.Count("bit_flips", 1)
+		if res.TimedOut {
+			c.Inconclusive("watchdog on a bit-flipped input")
+			continue
+		}
+		where := fmt.Sprintf("decile-%d", b*10/(len(comp)*8))
+		c.Key("flip-big/%s/%s/%s", codec, t.name, where)
+		if res.Exit == 0 {
+			c.Violate(fmt.Sprintf("exit0-decoder-error:%s:big:%s", codec, t.name), "the command exits 0 although reading its input stream to the end returns an error other than end of file (corrupt compressed data)",
+				map[string]any{"codec": codec, "command": t.name, "flipped_bit": b, "of_bits": len(comp) * 8, "decoder_error": libErr.Error(), "decompressed_bytes": len(text)})
+		}
+	}
+}
+
 func runBitflip(c *core.Ctx, codec string) {
 	n := 1 + c.Rng.Intn(12)
 	fastq := c.Idx%2 == 1
@@ -244,12 +317,20 @@ func runBitflip(c *core.Ctx, codec string) {
 	}
 	base := filepath.Join(c.Dir, fmt.Sprintf("b%d.dat%s", c.Idx, gen.CodecExt(codec)))
 	defer os.Remove(base)
-	t := targets(codec)[0]
+	// the guessed-format path (the sniffer reads the first MiB) and the forced-format path (the
+	// chunk reader does the first read itself)
+	tgs := []target{targets(codec)[0], {"obiconvert:file-forced-format", "obiconvert", []string{"--FORMAT"}, false, ""}}
+	if fastq {
+		base = filepath.Join(c.Dir, fmt.Sprintf("b%d.fastq%s", c.Idx, gen.CodecExt(codec)))
+	}
 	os.WriteFile(base, comp, 0o644)
-	intact := runCmd(c, t, base)
-	if intact.Exit != 0 {
-		c.Violate("intact-rejected:"+t.name, "the intact compressed file is rejected", map[string]any{"codec": codec})
-		return
+	intact := make([]cmdx.Res, len(tgs))
+	for i, t := range tgs {
+		intact[i] = runCmd(c, t, base)
+		if intact[i].Exit != 0 {
+			c.Violate("intact-rejected:"+t.name, "the intact compressed file is rejected", map[string]any{"codec": codec})
+			return
+		}
 	}
 	c.Sample(map[string]any{"codec": codec, "records": n, "compressed_bytes": len(comp), "faults": "single bit flips"})
 	nbits := len(comp) * 8
@@ -259,31 +340,50 @@ func runBitflip(c *core.Ctx, codec string) {
 			flips = append(flips, b)
 		}
 	} else {
-		for i := 0; i < c.Pick(40, 400); i++ {
+		// stratified: header, trailer (the index, footer, check sums live there) and body
+		edge := min(32*8, nbits/3)
+		for i := 0; i < c.Pick(12, 100); i++ {
+			flips = append(flips, c.Rng.Intn(edge), nbits-1-c.Rng.Intn(edge))
+		}
+		for i := 0; i < c.Pick(30, 300); i++ {
 			flips = append(flips, c.Rng.Intn(nbits))
 		}
 	}
-	for _, b := range flips {
+	for fi, b := range flips {
 		mut := append([]byte{}, comp...)
 		mut[b/8] ^= 1 << uint(b%8)
 		os.WriteFile(base, mut, 0o644)
-		res := runCmd(c, t, base)
-		c.Count("evaluations", 1)
-		c.Count("bit_flips", 1)
-		if res.TimedOut {
-			c.Inconclusive("watchdog on a bit-flipped input")
-			continue
-		}
+		// does the decoding library the toolkit uses report this corruption when the stream is read to its end?
+		libErr := gen.DecodeError(codec, mut)
 		region := "body"
 		if b/8 < 12 {
 			region = "header"
-		} else if b/8 >= len(comp)-12 {
+		} else if b/8 >= len(comp)-32 {
 			region = "trailer"
 		}
-		c.Key("flip/%s/%s/%v", codec, region, res.Exit == 0)
-		if res.Exit == 0 && !bytes.Equal(res.Stdout, intact.Stdout) {
-			c.Violate(fmt.Sprintf("exit0-different:%s:%s", codec, region), "the command exits 0 with a different output although its compressed input is corrupt",
-				map[string]any{"codec": codec, "flipped_bit": b, "of_bits": nbits, "region": region, "stdout": cmdx.Tail(res.Stdout, 400), "intact_stdout": cmdx.Tail(intact.Stdout, 400)})
+		for ti, t := range tgs {
+			if c.Quick() && ti != fi%2 {
+				continue
+			}
+			res := runCmd(c, t, base)
+			c.Count("evaluations", 1)
+			c.Count("bit_flips", 1)
+			if res.TimedOut {
+				c.Inconclusive("watchdog on a bit-flipped input")
+				continue
+			}
+			c.Key("flip/%s/%s/%s/%v/%v", codec, t.name, region, res.Exit == 0, libErr != nil)
+			det := map[string]any{"codec": codec, "command": t.name, "flipped_bit": b, "of_bits": nbits, "region": region, "stdout": cmdx.Tail(res.Stdout, 400), "intact_stdout": cmdx.Tail(intact[ti].Stdout, 400)}
+			if res.Exit != 0 {
+				continue
+			}
+			if libErr != nil {
+				c.Count("flips_reported_by_the_decoder", 1)
+				det["decoder_error"] = libErr.Error()
+				c.Violate(fmt.Sprintf("exit0-decoder-error:%s:%s:%s", codec, region, t.name), "the command exits 0 although reading its input stream to the end returns an error other than end of file (corrupt compressed data)", det)
+			} else if !bytes.Equal(res.Stdout, intact[ti].Stdout) {
+				c.Violate(fmt.Sprintf("exit0-different:%s:%s", codec, region), "the command exits 0 with a different output although its compressed input is corrupt", det)
+			}
 		}
 	}
 }
@@ -292,21 +392,38 @@ func runBitflip(c *core.Ctx, codec string) {
 
 var errInjected = errors.New("injected read error (input/output error)")
 
+// failingReader delivers data[:fail] and then a read error. The io.Reader contract leaves two
+// freedoms, both exercised: the error may come together with the last bytes (withData) or on its
+// own; and a reader may report its error once only and behave afterwards as an ended stream
+// (oneShot; what the xz decoder does for a corrupt index or footer).
 type failingReader struct {
-	data []byte
-	pos  int
-	fail int
+	data     []byte
+	pos      int
+	fail     int
+	withData bool
+	oneShot  bool
+	failed   bool
 }
 
 func (f *failingReader) Read(p []byte) (int, error) {
-	if f.pos >= f.fail {
-		os.Stderr.WriteString("VH-READ-ERROR-DELIVERED\n")
+	if f.failed {
+		if f.oneShot {
+			return 0, io.EOF
+		}
 		return 0, errInjected
 	}
-	n := copy(p, f.data[f.pos:min(f.fail, len(f.data))])
+	lim := min(f.fail, len(f.data))
+	n := copy(p, f.data[f.pos:lim])
 	f.pos += n
+	if f.pos >= lim && (f.withData || n == 0) {
+		f.failed = true
+		os.Stderr.WriteString("VH-READ-ERROR-DELIVERED\n")
+		return n, errInjected
+	}
 	return n, nil
 }
+
+var readErrModes = []string{"sticky", "sticky-with-data", "one-shot", "one-shot-with-data"}
 
 func flatText(r interface{ Intn(int) int }, format string, n int) []byte {
 	switch format {
@@ -365,7 +482,14 @@ func readMain(args []string) int {
 	k, _ := strconv.Atoi(args[3])
 	log.SetLevel(log.FatalLevel)
 	format, text := readCase(seed, args[1], idx)
-	var r io.Reader = &failingReader{data: text, fail: k}
+	mode, chunk := 0, 0
+	if len(args) >= 6 {
+		mode, _ = strconv.Atoi(args[4])
+		chunk, _ = strconv.Atoi(args[5])
+	}
+	// chunk 0: the production read buffer (the whole input arrives with the first read)
+	obiverif.SetChunk(chunk)
+	var r io.Reader = &failingReader{data: text, fail: k, withData: mode%2 == 1, oneShot: mode >= 2}
 	if k < 0 {
 		r = bytes.NewReader(text)
 	}
@@ -397,15 +521,17 @@ func readMain(args []string) int {
 func runReadErr(c *core.Ctx) {
 	format, text := readCase(c.Seed, c.Sub, c.Idx)
 	self, _ := os.Executable()
+	mode := (c.Idx / 4) % 4
+	chunk := []int{0, 64, 0, 1000}[(c.Idx/16+c.Idx/4)%4]
 	run := func(k int) cmdx.Res {
-		return cmdx.Run(self, []string{"c17read", fmt.Sprint(c.Seed), c.Sub, fmt.Sprint(c.Idx), fmt.Sprint(k)}, cmdx.Opt{Timeout: 60 * time.Second})
+		return cmdx.Run(self, []string{"c17read", fmt.Sprint(c.Seed), c.Sub, fmt.Sprint(c.Idx), fmt.Sprint(k), fmt.Sprint(mode), fmt.Sprint(chunk)}, cmdx.Opt{Timeout: 60 * time.Second})
 	}
 	ok := run(-1)
 	if ok.Exit != 0 {
 		c.Violate("intact-rejected:"+format, "the reader fails on an intact stream", map[string]any{"format": format, "stderr": cmdx.Tail(ok.Stderr, 600), "text": head(text)})
 		return
 	}
-	c.Sample(map[string]any{"format": format, "bytes": len(text), "faults": "read error after k bytes, k in [0, len)"})
+	c.Sample(map[string]any{"format": format, "bytes": len(text), "faults": "read error after k bytes, k in [0, len)", "error_mode": readErrModes[mode], "forced_read_buffer": chunk})
 	for _, k := range points(c, 0, len(text), c.Pick(30, 1500), c.Pick(30, 300)) {
 		res := run(k)
 		c.Count("evaluations", 1)
@@ -422,9 +548,9 @@ func runReadErr(c *core.Ctx) {
 		if !delivered {
 			continue
 		}
-		c.Key("readerr/%s/%d", format, min(k, 3)*1000/len(text))
+		c.Key("readerr/%s/%s/%v/%d", format, readErrModes[mode], chunk == 0, min(k, 3)*1000/len(text))
 		if res.Exit == 0 {
-			c.Violate("exit0:"+format, "a read error (not EOF) on the input stream is not fatal", map[string]any{"format": format, "error_after_bytes": k, "of": len(text), "stdout": cmdx.Tail(res.Stdout, 200)})
+			c.Violate(fmt.Sprintf("exit0:%s:%s", format, readErrModes[mode]), "a read error (not EOF) on the input stream is not fatal", map[string]any{"format": format, "error_after_bytes": k, "of": len(text), "error_mode": readErrModes[mode], "forced_read_buffer": chunk, "stdout": cmdx.Tail(res.Stdout, 200)})
 			return
 		}
 	}
@@ -448,13 +574,14 @@ func init() {
 		codec := cd
 		subs = append(subs, core.Sub{Name: "bitflip-" + codec, N: core.Const(4, 24), Shard: 2, TimeoutS: 3000, Run: func(c *core.Ctx) { runBitflip(c, codec) }})
 	}
-	subs = append(subs, core.Sub{Name: "readerr", N: core.Const(16, 64), Run: runReadErr})
+	subs = append(subs, core.Sub{Name: "truncate-big", N: core.Const(8, 32), TimeoutS: 3000, Run: runTruncateBig})
+	subs = append(subs, core.Sub{Name: "readerr", N: core.Const(32, 128), Run: runReadErr})
 	core.Register(&core.Property{
 		ID:    "C17",
 		Level: "fault_enumeration",
 		Rule: "fault points on compressed FASTA/FASTQ files (gzip, bzip2, xz, zstd; one member/frame each; 1..3000 records): truncation at byte k (every k from 6 for files up to 40 bytes in quick / 4 KiB in thorough, else the first and last 12 offsets plus 40/200 sampled ones), single bit flips (every bit up to 1 KiB in thorough, sampled otherwise), through obiconvert / obicount / obigrep with a file argument and, for gzip, obiconvert reading stdin; plus the four Read* functions over a reader returning a non-EOF error after k bytes (helper process). Oracle: exit status (truncation, read error => non-zero; bit flip => non-zero or output identical to the intact run). " +
 			"distinct_nontrivial = distinct (fault kind, codec or format, command+transport, size class, region header/body/trailer) classes exercised",
-		Assume: []string{"each compressed file is a single member/frame, so every proper prefix of at least 6 bytes is an invalid stream", "stdin is only exercised with gzip (the stdin reader is zlib based)"},
+		Assume:        []string{"each compressed file is a single member/frame, so every proper prefix of at least 6 bytes is an invalid stream", "stdin is only exercised with gzip (the stdin reader is zlib based)"},
 		Subs:          subs,
 		Cmds:          []string{"obiconvert", "obicount", "obigrep"},
 		MinNontrivial: 30,
